@@ -306,6 +306,8 @@ func valueOrError(res *xpath.Result) string {
 	_, e1 := res.GetBoolResult()
 	_, e2 := res.GetNumResult()
 	_, e3 := res.GetLiteralResult()
+	// (a value that is no nodeset has no nodeset form: the accessor says so with an error; none of the four panics)
+	_, _ = res.GetNodeSetResult()
 	if e1 != nil && e2 != nil && e3 != nil {
 		return fmt.Sprintf("neither a value nor an error: GetError()=nil, accessors: %v / %v / %v", e1, e2, e3)
 	}
